@@ -416,11 +416,13 @@ func (set *Set) remove(hosts ...*Host) {
 
 // MarkHostHealthy marks the given host as healthy.
 func (set *Set) MarkHostHealthy(host *Host) bool {
+	// flip the flag and update the healthy view under the same lock, otherwise
+	// concurrent marks could leave them disagreeing.
+	set.Lock()
+	defer set.Unlock()
 	if !host.setHealthy() {
 		return false
 	}
-	set.Lock()
-	defer set.Unlock()
 	// the address may have been re-added with another object in the meantime.
 	if cur, ok := set.all[host.Addr]; !ok || cur != host {
 		return false
@@ -431,11 +433,13 @@ func (set *Set) MarkHostHealthy(host *Host) bool {
 
 // MarkHostUnhealthy marks the given host as unhealthy.
 func (set *Set) MarkHostUnhealthy(host *Host) bool {
+	// flip the flag and update the healthy view under the same lock, otherwise
+	// concurrent marks could leave them disagreeing.
+	set.Lock()
+	defer set.Unlock()
 	if !host.setUnhealthy() {
 		return false
 	}
-	set.Lock()
-	defer set.Unlock()
 	// the address may have been re-added with another object in the meantime.
 	if cur, ok := set.all[host.Addr]; !ok || cur != host {
 		return false
